@@ -282,6 +282,17 @@ def run(ctx):
         n = H.strip(n)
         if H.kind(n) == "Block" and n.get("expr") is not None and not n["stmts"]:
             return shape(n["expr"], param)
+        if H.kind(n) == "Block" and n.get("expr") is not None and all(st_.get("k") == "Let" and H.kind(H.strip(st_.get("init") or {})) in ("Tup", "Path") for st_ in n["stmts"]):
+            # an inlined private helper: `let (coefficient, value) = (coefficient, value); <body>` - follow the renaming of the value
+            for st_ in n["stmts"]:
+                init_ = H.strip(st_["init"])
+                if H.kind(st_["pat"]) == "Tuple" and H.kind(init_) == "Tup":
+                    for p_, e_ in zip(st_["pat"]["pats"], init_["es"]):
+                        if H.path_local(H.strip(e_)) == param and H.pat_binds(p_):
+                            param = H.pat_binds(p_)[0]
+                elif H.path_local(init_) == param and H.pat_binds(st_["pat"]):
+                    param = H.pat_binds(st_["pat"])[0]
+            return shape(n["expr"], param)
         if H.kind(n) == "If":
             return shape(n["else"], param) if n.get("else") else None
         if H.kind(n) == "Binary":
@@ -311,6 +322,8 @@ def run(ctx):
             ok = s1 == ("call", "to_kelvin", ("value",)) and s2 == ("call", "from_kelvin", ("value",))
         else:
             ok = None
+        if ok is False and (s1 is None or s2 is None or "?" in str(s1) + str(s2) or "call" in (s1[0], s2[0])):
+            ok = None   # a spelling the shape reader does not follow (a helper, a block): no verdict; a decided pair of operators that is not inverse stays a finding
         ctx.inst("C17.R7", "variant=%s" % v, ok, "to_base: %s ; from_base: %s" % (s1, s2), H.loc(ta[v]["body"]))
 
     # ---- R5 category gate (MIR dominance) and who-may-call
@@ -496,6 +509,24 @@ def run(ctx):
                 one = [tb for val, tb in sw[1]["targets"] if val == "1"]
                 if one and use_block in fn_.edge_dominated(sw[0], one[0]):
                     return True
+            # (c) `match (a.len(), b.len()) { (1, _) => .. }`: the length is a field of a tuple, the switch is on that field
+            for tb in range(fn_.n):
+                for st_ in fn_.stmts(tb):
+                    if st_["k"] == "assign" and st_["rv"]["k"] == "agg" and st_["rv"].get("kind") == "tuple":
+                        pos = [i_ for i_, o_ in enumerate(st_["rv"]["ops"]) if (fn_.op_place(o_) or {}).get("l") == L]
+                        if not pos:
+                            continue
+                        T = st_["lhs"]["l"]
+                        for sb in range(fn_.n):
+                            tt_ = fn_.term(sb)
+                            if tt_["k"] != "switch":
+                                continue
+                            pl_ = fn_.op_place(tt_["discr"])
+                            if pl_ is None or pl_["l"] != T or not pl_["p"] or pl_["p"][0].get("f") != pos[0]:
+                                continue
+                            one = [t2 for val, t2 in tt_["targets"] if val == "1"]
+                            if one and use_block in fn_.edge_dominated(sb, one[0]):
+                                return True
             # (b) `if v.len() == 1`: Eq(len, 1) then a switch on the boolean
             nb = t["t"]
             for st_ in fn_.stmts(nb):
